@@ -349,7 +349,8 @@ class GridBlueprint(yamlize.Object):
         Used to limit the size of the spatialGrid. Used to be called maxNumRings.
         """
         if self.gridContents:
-            return max(itertools.chain(*zip(*self.gridContents.keys())))
+            # indices are signed: the grid has to reach the one farthest from the origin
+            return max(abs(idx) for idx in itertools.chain(*self.gridContents.keys()))
         else:
             return 6
 
